@@ -245,7 +245,7 @@ func judge[C any](id string, c C, check func(C) (Outcome, error), useJournal boo
 
 // runProp drives one property: replay mode (plain regression, no rapid) or rapid.Check.
 func runProp[C any](t *testing.T, id string, gen func(*rapid.T) C, check func(C) (Outcome, error)) {
-	runPropJ(t, id, gen, check, false)
+	runPropJ(t, id, gen, check, true) // always journal: a fatal error (stack overflow, worker-goroutine panic) cannot be recovered in-process
 }
 
 func runPropJ[C any](t *testing.T, id string, gen func(*rapid.T) C, check func(C) (Outcome, error), useJournal bool) {
